@@ -28,6 +28,8 @@ fn ledger_reset() {
 
 #[derive(Debug, PartialEq, Eq)]
 pub struct Tracked {
+    /// owns heap memory, so that a duplicated element is a double free for Miri / the allocator as well
+    heap: Box<u8>,
     id: u32,
     payload: u64,
     /// guards against bit-garbage being interpreted as a Tracked
@@ -41,7 +43,7 @@ impl Tracked {
             let id = l.next_id;
             l.next_id += 1;
             l.created.push(id);
-            Tracked { id, payload, magic: MAGIC }
+            Tracked { heap: Box::new(7), id, payload, magic: MAGIC }
         })
     }
 }
@@ -61,6 +63,13 @@ impl Clone for Tracked {
 impl Drop for Tracked {
     fn drop(&mut self) {
         let (id, magic) = (self.id, self.magic);
+        let already = LEDGER.with(|l| l.borrow().drops.get(&id).copied().unwrap_or(0) > 0);
+        if magic != MAGIC || (already && !cfg!(miri)) {
+            // garbage read as an element, or a duplicate being dropped again: natively do not free the "heap" pointer a
+            // second time (the ledger reports it at the end of the history); under Miri the double free is left to the interpreter
+            let h = std::mem::replace(&mut self.heap, Box::new(0));
+            std::mem::forget(h);
+        }
         LEDGER.with(|l| {
             let mut l = l.borrow_mut();
             if magic != MAGIC || !l.created.contains(&id) {
@@ -134,6 +143,7 @@ fn run_consumer<const N: usize>(rep: &mut Report, path: &[COp]) -> bool {
         let ids: Vec<(u32, u64)> = arr.iter().map(|t| (t.id, t.payload)).collect();
         let mut model = CModel { objs: [None, None] };
         let mut objs: [Option<ArrayConsumer<Tracked, N>>; 2] = [None, None];
+        let mut poisoned = false;
         if start_empty {
             drop(arr);
             objs[0] = Some(ArrayConsumer::empty());
@@ -179,7 +189,15 @@ fn run_consumer<const N: usize>(rep: &mut Report, path: &[COp]) -> bool {
                         }
                     }
                 }
-                COp::Drop(_) => { drop(objs[which].take()); model.objs[which] = None; }
+                COp::Drop(_) => {
+                    let o = objs[which].take();
+                    model.objs[which] = None;
+                    if let Err(p) = catch(move || drop(o)) {
+                        violation = Some(("C15", "drop panicked".into(), "no panic".into(), format!("panic: {p}")));
+                        poisoned = true;
+                        break 'steps;
+                    }
+                }
                 COp::AssertEmpty(_) => {
                     let o = objs[which].take().unwrap();
                     let must_panic = !model.objs[which].as_ref().unwrap().is_empty();
@@ -225,7 +243,15 @@ fn run_consumer<const N: usize>(rep: &mut Report, path: &[COp]) -> bool {
             // after every step: as_slice of every live object = model; bump payloads through as_mut_slice
             for w in 0..2 {
                 if let (Some(o), Some(m)) = (objs[w].as_mut(), model.objs[w].as_mut()) {
-                    let got: Vec<(u32, u64)> = o.as_slice().iter().map(|t| (t.id, t.payload)).collect();
+                    let got: Vec<(u32, u64)> = match catch(|| o.as_slice().iter().map(|t| (t.id, t.payload)).collect()) {
+                        Ok(g) => g,
+                        Err(p) => {
+                            violation = Some(("C15", "as_slice panicked".into(), "the not-yet-taken elements".into(), format!("panic: {p}")));
+                            // the object is in a state its own Drop may not survive: leak everything instead of unwinding through it
+                            poisoned = true;
+                            break 'steps;
+                        }
+                    };
                     let exp: Vec<(u32, u64)> = m.iter().cloned().collect();
                     if got != exp {
                         violation = Some(("C15", "as_slice shows the not-yet-taken elements".into(), format!("{exp:?}"), format!("{got:?}")));
@@ -236,7 +262,16 @@ fn run_consumer<const N: usize>(rep: &mut Report, path: &[COp]) -> bool {
                 }
             }
         }
-        // scope end: remaining objects are dropped here
+        // scope end: remaining objects are dropped here (unless one of them is known to be corrupted)
+        if poisoned {
+            std::mem::forget(objs);
+            panicked = true;
+        } else if let Err(p) = catch(move || drop(objs)) {
+            if violation.is_none() {
+                violation = Some(("C15", "drop at scope end panicked".into(), "no panic".into(), format!("panic: {p}")));
+            }
+            panicked = true;
+        }
     }
     drop(handed);
     if !enabled {
